@@ -21,7 +21,7 @@ import vlib
 PROP_FILE = "Props/Properties_C04.v"
 LEVEL = "proof"
 WRAPS = ("select", "read", "recv", "write", "malloc", "calloc", "realloc", "open", "creat", "fopen", "opendir",
-         "mkdir", "rmdir", "unlink", "rename", "stat", "fstat", "utime")
+         "mkdir", "rmdir", "unlink", "rename", "stat", "fstat", "utime", "pthread_create", "pthread_join")
 DEFAULT_WAIT = 20000
 SLICE = 5000
 PEEK_WAIT = 100
@@ -836,7 +836,7 @@ def case_extclip(rng, k, variant):
         fl = (1 << 28) | fl_bits
         steps = []
         for sz, dat in recs:
-            if sz > (1 << 20):
+            if sz > gen_const("c04_ext_clip_limit", SPEC_MSG_LIMIT):      # record refused before its body is inflated
                 steps.append("%d/0" % sz); break
             if sz == 0 or len(dat) != sz:
                 steps.append("%d/0" % sz); break
@@ -859,13 +859,14 @@ def case_extclip(rng, k, variant):
             sz = rng.choice([1, 5, 100, 4097, 70000])
             msgs.append(provide(1, [(sz, bytes(rng.randrange(32, 127) for _ in range(sz)))], level=rng.choice([1, 6, 9])))
         elif kind == "edge":
-            sz = rng.choice([(1 << 20) - 1, 1 << 20])
+            L = gen_const("c04_ext_clip_limit", SPEC_MSG_LIMIT)
+            sz = rng.choice([(1 << 20) - 1, 1 << 20, L - 1, L])
             msgs.append(provide(1, [(sz, b"E" * sz)]))
         elif kind == "big":
             sz = rng.choice([(1 << 20) + 1, (20 << 20), (20 << 20) + 1, 0x7FFFFFFF, 0x80000000, 0xFFFFFFFF])
             msgs.append(provide(rng.choice([1, 2, 1 | 2]), [(sz, b"xyz" * 10)]))
         elif kind == "bomb":
-            sz = rng.choice([(1 << 20) + 1, 4 << 20, 16 << 20])
+            sz = rng.choice([(1 << 20) + 1, gen_const("c04_ext_clip_limit", SPEC_MSG_LIMIT) + 1, 4 << 20, 16 << 20])
             msgs.append(provide(1, [(sz, b"A" * sz)], level=9))
         elif kind == "multi":
             recs = [(rng.choice([1, 50, 3000]), None) for _ in range(2)]
@@ -1092,6 +1093,31 @@ def uninit_probe(ctx, cases, cexe):
     return res, len(sel)
 
 
+SPEC_MSG_LIMIT = (1 << 20) + 1     # the documented limit: 1 MiB of text and the NUL that ends an extended-clipboard record
+_gen_consts = {}
+
+
+def gen_const(name, default):
+    """value of a regenerated constant (coq/Gen/Consts_C04.v, written by tools/gen_consts.py from the source at
+    the start of every run) - the same value the model uses"""
+    if not _gen_consts:
+        _gen_consts["_"] = 0
+        try:
+            txt = open(os.path.join(vlib.VERIF, "coq", "Gen", "Consts_C04.v")).read()
+            for m in re.finditer(r"Definition\s+(c04_\w+)\s*(?::\s*Z\s*)?:=\s*\(?\s*(-?\d+)\s*\)?\s*\.", txt):
+                _gen_consts[m.group(1)] = int(m.group(2))
+        except OSError:
+            pass
+    return _gen_consts.get(name, default)
+
+
+def msg_limit():
+    """what one message may make the server allocate (no file transfer): the limits the source has - the
+    regenerated constants c04_cut_text_limit / c04_ext_clip_limit, the same the model uses - but never more
+    than the documented fixed bound (theorem C04_alloc_bound_fixed is the proof-side guard of the same fact)"""
+    return min(max(gen_const("c04_cut_text_limit", 1 << 20), gen_const("c04_ext_clip_limit", SPEC_MSG_LIMIT)), SPEC_MSG_LIMIT)
+
+
 def strip_impl(line):
     return " ".join(t for t in line.split(" ") if not t.startswith("~")).rstrip()
 
@@ -1126,9 +1152,9 @@ def oracle_case(case, impl_lines):
         for m in re.finditer(r"fur:A:\d+:(\d+):(\d+):(\d+):(\d+)", l):
             if int(m.group(3)) == 0 and int(m.group(4)) > 0:
                 fur0 = True
-    # the property's bound: 1 MiB of message payload (2 GiB with file transfer permitted) or one frame buffer
+    # the property's bound: 1 MiB (+ NUL) of message payload (2 GiB with file transfer permitted) or one frame buffer
     fb = ((cfg.get("w", 0) * (cfg.get("bpp", 32) // 8) + 3) // 4 * 4) * cfg.get("h", 0)
-    bound = max((1 << 31) if cfg.get("ft") else (1 << 20), fb)
+    bound = max((1 << 31) if cfg.get("ft") else msg_limit(), fb)
     for l in impl_lines:
         if l.startswith("crash "):
             san = field(l, "san", "none")
